@@ -128,6 +128,9 @@ def check_bad_rule(ctx, rid):
         return rr
     rr.ok("check_bad: the result load sits in a handler catching every Exception")
     rem = [(n, c) for n, c, nm in all_calls(ctx, f, g) if nm in ("os.remove", "os.unlink") and "result" in norm(c)]
+    if not rem and not [1 for n, c, nm in all_calls(ctx, f, g) if nm in ("os.remove", "os.unlink", "shutil.move", "os.rename", "os.replace", "?.unlink")]:
+        rr.bad(ctx.finding(rid, f, f.node, "check_bad never removes a bad result (delete_bad has no effect): an unreadable or short result keeps counting as finished, grow_missing skips it and every later reap fails on it", construct="check-bad-no-removal"), "removal exists")
+        return rr
     need(rem, "anchor lost: check_bad removal")
     rn, rc = rem[0]
     # reachable from the handler (unreadable) and from the normal load (wrong length), under delete_bad
@@ -140,6 +143,54 @@ def check_bad_rule(ctx, rid):
         rr.ok("check_bad: os.remove(result) reachable on the unreadable path and on the wrong-length path when delete_bad")
     else:
         rr.bad(ctx.finding(rid, f, rc, "check_bad does not reach the removal on %s" % ("the unreadable path" if not from_handler else "the wrong-length path"), construct="check-bad-removal-path"), "removal reachable")
+    # the decision: bad iff unreadable or of another length than its batch
+    from ..util import IntEval
+    dec = [t for t in lens]
+    if dec:
+        t_ = dec[0]
+        flag = sorted({x.id for x in ast.walk(t_.ast) if isinstance(x, ast.Name)} - {"result", "batch", "len"})
+        # which branch of the decision leads to the removal?
+        heads = [n_.id for n_ in g.nodes if n_.kind == "for"]
+        to_rm = {}
+        for b_, l_ in g.succ[t_.id]:
+            if l_ in ("t", "f"):
+                to_rm[l_] = rn.id == b_ or rn.id in g.reachable(start=b_, blocked_nodes=heads, feasible=fl.feasible)
+        if len(flag) == 1 and to_rm.get("t") != to_rm.get("f"):
+            fname = flag[0]
+            bad_when = True if to_rm.get("t") else False
+            sets = [(n_, n_.ast.value) for n_ in g.nodes if n_.kind == "stmt" and isinstance(n_.ast, ast.Assign) and norm(n_.ast.targets[0]) == fname]
+            in_handler = [v_ for n_, v_ in sets if any(n_.ast is x for h in broad for x in ast.walk(h.ast))]
+            outside = [v_ for n_, v_ in sets if not any(n_.ast is x for h in broad for x in ast.walk(h.ast))]
+
+            def rep(vs, default):
+                if not vs:
+                    return default
+                v0 = vs[0]
+                return v0.value if isinstance(v0, ast.Constant) else "<the exception>"
+            v_unread, v_read = rep(in_handler, None), rep(outside, None)
+            if len(in_handler) == 1 and len(outside) >= 1 and v_unread != v_read:
+                wrong = []
+                for unread in (True, False):
+                    for l1, l2 in ((2, 2), (1, 2)):
+                        def on_call(c_, ev_, st_, l1=l1, l2=l2):
+                            if norm(c_.func) == "len" and len(c_.args) == 1:
+                                return l1 if norm(c_.args[0]) == "result" else l2
+                            return NotImplemented
+                        try:
+                            tv_ = bool(IntEval({fname: v_unread if unread else v_read, "result": (), "batch": ()}, on_call).ev(t_.ast, {}))
+                        except AnalysisError:
+                            tv_ = None
+                        if tv_ is not None and (tv_ == bad_when) != (unread or l1 != l2):
+                            wrong.append((unread, l1, l2, tv_ == bad_when))
+                if wrong:
+                    unread, l1, l2, got = wrong[0]
+                    rr.bad(ctx.finding(rid, f, t_.ast, "check_bad decides `%s`: for a result that is %s with %d entries for a batch of %d it %s (expected: bad iff unreadable or of the wrong length): bad results are kept or good ones deleted" % (
+                        norm(t_.ast), "unreadable" if unread else "readable", l1, l2, "treats it as bad" if got else "treats it as good"), construct="check-bad-decision"), "check_bad decision")
+                else:
+                    rr.ok("check_bad: a result is treated as bad iff unreadable or len(result) != len(batch) (truth table; flag `%s` = %r when unreadable, %r otherwise)" % (fname, v_unread, v_read))
+            elif sets:
+                rr.bad(ctx.finding(rid, f, sets[0][0].ast, "the unreadable indicator `%s` has the same value (%r) after a failing and after a good load: unreadable results are taken for good ones or the reverse" % (fname, v_unread),
+                                   construct="check-bad-flag"), "check_bad flag")
     fl2 = Flow(g, {"delete_bad": FALSE}).run()
     if rn.id in fl2.visited:
         rr.bad(ctx.finding(rid, f, rc, "check_bad removes results although delete_bad is false", construct="check-bad-delete-false"), "delete_bad honoured")
